@@ -709,19 +709,33 @@ func main() {
 		Rule: "space Package: every declaration set ⊆ {a,b,c} (and the nil map) × every callback behaviour (always nil; error E at call k; StopLookup at call k; k=1..4); " +
 			"space CombinedPackage: every sequence of 0..3 (thorough: 0..4) packages, each a native.Package with a set ⊆ {a,b,c} or a contract-honouring custom package iterating one of the 16 ordered subsets of {a,b,c}, in 3 nesting shapes × the same 9 callback behaviours; " +
 			"space CombinedImporter: every chain of 0..3 (thorough: 0..4) importers out of 8 variants (custom importers returning (nil,nil)/(pkg,nil)/(nil,err), native.Packages with/without the path, nil map) in 3 nesting shapes × 3 import paths. " +
-			"Each canonical index is a distinct configuration (indices with an absent slot before a present one are classed non-canonical and not counted). Non-trivial: Package — at least one declaration; CombinedPackage — a name occurs in two packages or the callback stops the lookup; CombinedImporter — at least two importers",
+			"Each canonical index is a distinct configuration (indices with an absent slot before a present one are classed non-canonical and not counted). Non-trivial: Package — at least one declaration; CombinedPackage — a name occurs in two packages or the callback stops the lookup; CombinedImporter — at least two importers. " +
+			"Round 2: Package.direct = every set of names ⊆ {a,b,c,d} × callback returning nil / StopLookup / a custom error value / a wrapped StopLookup at call 1..5, directly on native.Package; " +
+			"nilgrid = every grid {absent, value, nil value} per name for native.Package (4 names), CombinedPackage of 1 (4 names), 2 (3 names) and 3 (2 names) packages, complete LookupFunc and Lookup of every name checked against each other and against the model without the nil entries (non-trivial: at least one nil entry); " +
+			"history = every sequence of 2..3 operations out of 14 (complete LookupFunc, StopLookup at call 1..4, custom error at call 1..4, Lookup of a..e) on one of 44 values (6 native.Package, 36 CombinedPackage of two packages over {a},{a,b},{b,c},{a,b,c,d},{c,d},{d}, 2 with a custom ordered member), either all on that value or alternating (thorough: every assignment) with a second value (two fixed ones, or a CombinedPackage of the same member values reversed), each operation checked against the stateless model; " +
+			"CombinedImporter.typednil = every chain of 0..3 importers out of 7 including custom importers and native.Packages that return a typed-nil package or hold a nil interface",
 		Assumptions: []string{
 			"at most 3 (thorough 4) packages/importers and 3 declaration names; declarations are distinct string values",
 			"custom packages honour the ImportablePackage contract (stop at the first error, return it, or nil for StopLookup)",
 			"inside one native.Package any visiting order is accepted (order undefined by contract); across combined packages the order of packages is checked",
 			"importers returning both a package and an error are not explored (contract does not define the result)",
+			"a declaration whose value is nil does not exist (Package.Lookup: 'nil if no such declaration exists'); LookupFunc must agree with Lookup. Grids with nil entries are explored with complete lookups only, because an interrupted lookup over a Go map visits a random subset",
+			"a wrapped StopLookup may be returned as itself or as nil; a typed-nil package may be returned as the package or skipped as 'does not exist'",
 		},
 		Spaces: func(tier string) []kit.Space {
 			slots := 3
 			if tier == "thorough" {
 				slots = 4
 			}
-			return []kit.Space{packageSpace(), combinedSpace(slots), importerSpace(slots)}
+			return []kit.Space{packageSpace(), combinedSpace(slots), importerSpace(slots),
+				packageDirectSpace(),
+				nilGridSpace("nilgrid.Package", 1, names4, false),
+				nilGridSpace("nilgrid.CombinedPackage{p0}", 1, names4, true),
+				nilGridSpace("nilgrid.CombinedPackage{p0,p1}", 2, declNames, true),
+				nilGridSpace("nilgrid.CombinedPackage{p0,p1,p2}", 3, []string{"a", "b"}, true),
+				historySpace(tier == "thorough"),
+				typedNilImporterSpace(),
+			}
 		},
 	})
 }
